@@ -51,59 +51,141 @@ DRIVER = "drv_seq"
 # ---- translator: the container constants of the current sources -> lean/Nstd/Generated/SeqConst.lean ----------
 GEN_OUT = C.LEAN / "Nstd" / "Generated" / "SeqConst.lean"
 
+POLICY_PROBE = r"""#include <stdio.h>
+#include <stdlib.h>
+#include <nstd/Array.hpp>
+#include <nstd/List.hpp>
+#include <nstd/PoolList.hpp>
+static unsigned long nNew;
+void* operator new[](usize size) { ++nNew; return malloc(size ? size : 1); }
+void operator delete[](void* p) { free(p); }
+void* operator new(usize size) { return operator new[](size); }
+void operator delete(void* p) { free(p); }
+int main()
+{
+  for(unsigned c = 0; c <= 20; ++c)
+    for(unsigned n = 0; n <= 64; ++n)
+    {
+      Array<int> a(c);
+      a.reserve(n);
+      printf("R %u %u %lu %d\n", c, n, (unsigned long)a.capacity(), (int*)a ? 1 : 0);
+    }
+  {
+    Array<int> a;
+    for(int i = 0; i < 80; ++i) { a.append(i); printf("G %d %lu\n", i + 1, (unsigned long)a.capacity()); }
+  }
+  {
+    List<int> l;
+    for(int i = 1; i <= 100; ++i) { unsigned long b = nNew; l.append(i); if(nNew != b) printf("L %d\n", i); }
+  }
+  {
+    PoolList<int> l;
+    for(int i = 1; i <= 100; ++i) { unsigned long b = nNew; l.append(i); if(nNew != b) printf("P %d\n", i); }
+  }
+  return 0;
+}
+"""
 
-def _strip(src):
-    src = re.sub(r"/\*.*?\*/", " ", src, flags=re.S)
-    return re.sub(r"//[^\n]*", "", src)
+
+def _block_items(marks, what):
+    """appends at which a block was allocated -> items per block (first at 1, then every k-th)"""
+    if len(marks) < 3 or marks[0] != 1:
+        raise ValueError(f"{what}: block allocations at appends {marks[:6]} (expected the first at append 1)")
+    k = marks[1] - marks[0]
+    if k < 1 or any(marks[i + 1] - marks[i] != k for i in range(len(marks) - 1)):
+        raise ValueError(f"{what}: block allocations at appends {marks[:8]} are not equidistant")
+    return k
 
 
 def translate(repo=None):
-    """(ok, message).  Extracts the growth mask of Array::reserve and the items-per-block constants of List::insert and
-    PoolList::allocateFreeItem (allocation size and loop bound must agree) and writes them as Lean definitions; the
-    theorems `reserve_policy_source` / `block_items_source` of Props.lean are stated over these definitions.  The file is
+    """(ok, message).  Derives the container constants by EXECUTION of the current headers (no assumption about how the
+    source spells them): a probe built from include/nstd prints capacity() after Array<int>(c).reserve(n) for c = 0..20,
+    n = 0..64, the capacities along 80 appends, and the appends at which List<int> / PoolList<int> allocate a block.
+    Accepted: a growth rule `new capacity = max(n, capacity) | m` for ONE mask m = 2^j - 1 (allocation iff n > capacity or
+    no storage and n > 0), and equidistant block allocations.  Anything else is refused (broken tie).  The Lean file is
     rewritten only when its content changes."""
     repo = Path(repo or C.REPO)
+    src = C.BUILD / f"seq_policy_{os.getpid()}.cpp"
+    exe = C.BUILD / f"seq_policy_{os.getpid()}"
+    C.BUILD.mkdir(parents=True, exist_ok=True)
+    src.write_text(POLICY_PROBE)
     try:
-        arr = _strip((repo / "include/nstd/Array.hpp").read_text())
-        lst = _strip((repo / "include/nstd/List.hpp").read_text())
-        pol = _strip((repo / "include/nstd/PoolList.hpp").read_text())
-    except OSError as e:
-        return False, f"cannot read the headers: {e}"
-    m = re.search(r"void\s+reserve\s*\(\s*usize\s+size\s*\)(.*?)\n  }\n", arr, flags=re.S)
-    if not m:
-        return False, "Array::reserve(usize) not found"
-    masks = re.findall(r"_capacity\s*\|=\s*(0[xX][0-9a-fA-F]+|\d+)\s*;", m.group(1))
-    if len(masks) != 1:
-        return False, f"expected one `_capacity |= <mask>;` in Array::reserve, found {masks}"
-    mask = int(masks[0], 0)
-    la = re.findall(r"new\s+char\s*\[\s*sizeof\(ItemBlock\)\s*\+\s*sizeof\(Item\)\s*\*\s*(\d+)\s*\]", lst)
-    lb = re.findall(r"\*\s*end\s*=\s*i\s*\+\s*(\d+)\s*;", lst)
-    if len(la) != 1 or len(lb) != 1 or la != lb:
-        return False, f"List::insert: block allocation {la} and fill loop bound {lb} not found or different"
-    slot = r"(?:slotSize|\(\s*sizeof\(Item\)\s*\+\s*sizeof\(T\)\s*\))"
-    pa = re.findall(r"new\s+char\s*\[\s*sizeof\(ItemBlock\)\s*\+\s*" + slot + r"\s*\*\s*(\d+)\s*\]", pol)
-    pb = re.findall(r"\(char\*\)\s*i\s*\+\s*(\d+)\s*\*\s*" + slot, pol)
-    if len(pa) != 1 or len(pb) != 1 or pa != pb:
-        return False, f"PoolList::allocateFreeItem: block allocation {pa} and fill loop bound {pb} not found or different"
-    text = ("/- generated by tools/areas/seq.py (translate) from include/nstd/{Array,List,PoolList}.hpp - do not edit -/\n"
+        rc, out = C.sh([C.CXX, "-std=gnu++11", "-O0", f"-I{repo}/include", str(src), "-o", str(exe)], timeout=300)
+        if rc != 0:
+            return False, "policy probe does not compile against the current headers: " + out[-400:]
+        rc, out = C.sh([str(exe)], timeout=60)
+        if rc != 0:
+            return False, f"policy probe exits with {rc}"
+    finally:
+        try:
+            src.unlink()
+        except OSError:
+            pass
+    try:
+        exe.unlink()
+    except OSError:
+        pass
+    R, G, Lm, Pm = [], [], [], []
+    for line in out.splitlines():
+        t = line.split()
+        if t[0] == "R": R.append(tuple(int(x) for x in t[1:]))
+        elif t[0] == "G": G.append((int(t[1]), int(t[2])))
+        elif t[0] == "L": Lm.append(int(t[1]))
+        elif t[0] == "P": Pm.append(int(t[1]))
+    why = {}
+    found = None
+    for j in range(0, 7):
+        m = (1 << j) - 1
+        bad = None
+        for c, n, cap, stor in R:
+            exp_cap, exp_stor = ((max(n, c) | m), 1) if n > 0 else (c, 0)
+            if (cap, stor) != (exp_cap, exp_stor):
+                bad = f"Array<int>({c}).reserve({n}): capacity {cap}, storage {stor}; max(n,c)|{m} would be {exp_cap}, {exp_stor}"
+                break
+        if bad is None:
+            cap = 0
+            for size, got in G:
+                if size > cap:
+                    cap = size | m
+                if got != cap:
+                    bad = f"append no. {size}: capacity {got}; rule |{m} gives {cap}"
+                    break
+        if bad is None:
+            found = (m, j)
+            break
+        why[m] = bad
+    if found is None:
+        return False, ("the growth of Array::reserve is not `max(n, capacity) | m` for a mask m = 2^j - 1 (j <= 6): " +
+                       "; ".join(f"m={m}: {w}" for m, w in list(why.items())[:3]))
+    try:
+        lk = _block_items(Lm, "List<int>")
+        pk = _block_items(Pm, "PoolList<int>")
+    except ValueError as e:
+        return False, str(e)
+    mask, bits = found
+    text = ("/- generated by tools/areas/seq.py (translate): constants derived by executing the current\n"
+            "   include/nstd/{Array,List,PoolList}.hpp - do not edit -/\n"
             "namespace Nstd.Generated.Seq\n\n"
-            "/-- `_capacity |= <mask>;` in `Array::reserve` -/\n"
+            "/-- `Array::reserve`: new capacity = `max n capacity ||| arrayCapMask` -/\n"
             f"def arrayCapMask : Nat := {mask}\n\n"
-            "/-- items per block: `new char[sizeof(ItemBlock) + sizeof(Item) * N]` and `end = i + N` in `List::insert` -/\n"
-            f"def listBlockItems : Nat := {int(la[0])}\n\n"
-            "/-- items per block in `PoolList::allocateFreeItem` -/\n"
-            f"def poolBlockItems : Nat := {int(pa[0])}\n\n"
+            "/-- `arrayCapMask + 1 = 2 ^ arrayCapBits` -/\n"
+            f"def arrayCapBits : Nat := {bits}\n\n"
+            "/-- items per block of `List` (a block is allocated at every `listBlockItems`-th insertion into a growing list) -/\n"
+            f"def listBlockItems : Nat := {lk}\n\n"
+            "/-- items per block of `PoolList` -/\n"
+            f"def poolBlockItems : Nat := {pk}\n\n"
             "end Nstd.Generated.Seq\n")
     GEN_OUT.parent.mkdir(parents=True, exist_ok=True)
     if not GEN_OUT.exists() or GEN_OUT.read_text() != text:
         GEN_OUT.write_text(text)
-    return True, f"mask={mask} list={la[0]} pool={pa[0]}"
+    return True, f"mask={mask} (2^{bits}-1) list block={lk} pool block={pk}"
 
 
 def gen(ctx):
     ok, msg = translate()
     if ctx is not None:
         ctx.cov.setdefault("translated", msg)
+        ctx.log("translator: " + msg)
     return ok, msg
 
 
